@@ -26,7 +26,7 @@ deriving instance Hashable for Rule
 
 structure Node where
   s : State
-  pend : List Rule        -- remaining external rules of this op, in program order
+  pend : List (List Rule) -- remaining external rules of this op: one list per external thread (program order inside a thread)
   evs : List Ev           -- wire events so far (reverse order)
 deriving DecidableEq, Hashable
 
@@ -65,11 +65,13 @@ def succs (n : Node) : List Node :=
   let int := (enabledInternal n.s).map fun r =>
     let (s', e) := fire n.s r
     { n with s := s', evs := e.reverse ++ n.evs }
-  match n.pend with
-  | r :: rest =>
-    let (s', e) := step n.s r
-    { s := s', pend := rest, evs := e.reverse ++ n.evs } :: int
-  | [] => int
+  let ext := (List.range n.pend.length).filterMap fun k =>
+    match n.pend[k]? with
+    | some (r :: rest) =>
+      let (s', e) := step n.s r
+      some { s := s', pend := (n.pend.set k rest).filter (!·.isEmpty), evs := e.reverse ++ n.evs }
+    | _ => none
+  ext ++ int
 
 /-- depth-first search with a visited set; `fuel` only bounds the loop for the termination checker -/
 def explore (fuel : Nat) (work : List Node) (seen : Std.HashSet Node) (out : List Node) : List Node :=
@@ -84,8 +86,8 @@ def explore (fuel : Nat) (work : List Node) (seen : Std.HashSet Node) (out : Lis
       | [] => explore fuel work seen (n :: out)
       | ss => explore fuel (ss ++ work) seen out
 
-def outcomes (s : State) (pend : List Rule) : List Node :=
-  explore 2000000 [{ s := s, pend := pend, evs := [] }] {} []
+def outcomes (s : State) (pend : List (List Rule)) : List Node :=
+  explore 2000000 [{ s := s, pend := pend.filter (!·.isEmpty), evs := [] }] {} []
 
 /-! ### driver state -/
 
@@ -95,8 +97,6 @@ structure Mon where
   halfP : List Nat := []        -- END_STREAM seen from the client
   maxAdv : Nat := 4294967295    -- latest advertised MAX_CONCURRENT_STREAMS
   dead : Bool := false          -- the peer has sent GOAWAY, or the client was closed
-  hdrLost : Bool := false
-  prevBlk : List Nat := []
 
 structure DS where
   started : Bool := false
@@ -151,7 +151,7 @@ def parkedIdx (s : State) : List Nat :=
 def streamOf (s : State) (sid : Nat) : Option Stream := s.openS.find? (·.id == sid)
 
 /-- external rules of an op (program order), plus the updated driver bookkeeping -/
-def external (d : DS) (fs : List String) : Option (DS × List Rule) :=
+def external1 (d : DS) (fs : List String) : Option (DS × List Rule) :=
   let s := d.s
   match fs with
   | "new" :: k :: rest =>
@@ -187,6 +187,37 @@ def external (d : DS) (fs : List String) : Option (DS × List Rule) :=
   | ["goaway", last] => last.toNat?.map fun last =>
       (d, .goAway :: ((s.openS.filter (·.id > last)).map fun st => Rule.closeStream st.id none))
   | _ => none
+
+/-- `burst a:b:c …`: the peer's frames (srvend/srvrst/settings/hls, written back to back: the reader
+goroutine handles them in order) and the test goroutine's own actions (cclose, new, in order) are two
+unordered threads. -/
+def external (d : DS) (fs : List String) : Option (DS × List (List Rule)) :=
+  match fs with
+  | "burst" :: subs =>
+    let go := subs.foldl (fun (acc : Option (DS × List Rule × List Rule)) sub =>
+      match acc with
+      | none => none
+      | some (d, peer, loc) =>
+        let parts := sub.splitOn ":"
+        -- a sub-op aimed at a stream id the peer has not seen yet is skipped (by the harness too)
+        let skip := match parts with
+          | [k, id] => (k == "srvend" || k == "cclose") && (id.toNat?.getD 0) ≥ d.s.nextID
+          | [k, id, _] => k == "srvrst" && (id.toNat?.getD 0) ≥ d.s.nextID
+          | _ => false
+        if skip then some (d, peer, loc) else
+        match external1 d parts with
+        | none => none
+        | some (d', rs) =>
+          match parts.head? with
+          | some "cclose" => some (d', peer, loc ++ rs)
+          | some "new" => some (d', peer, loc ++ rs)
+          | some "srvend" => some (d', peer ++ rs, loc)
+          | some "srvrst" => some (d', peer ++ rs, loc)
+          | some "settings" => some (d', peer ++ rs, loc)
+          | some "hls" => some (d', peer ++ rs, loc)
+          | _ => none) (some (d, [], []))
+    go.map fun (d, peer, loc) => (d, [peer, loc])
+  | _ => (external1 d fs).map fun (d, rs) => (d, [rs])
 
 /-! ### monitor (C13 on the implementation's line) -/
 
@@ -248,7 +279,7 @@ def monEvents (m : Mon) : List String → Mon × Option String
 
 def monitor (m : Mon) (fs : List String) (line : String) : Mon × String :=
   match parseImpl line with
-  | none => (m, if line.startsWith "PANIC" || line.startsWith "CRASH" then "-" else "VIOL unparsable implementation line")
+  | none => (m, "-")   -- `not-started`, `bad-op`, PANIC/CRASH (judged by the framework): nothing to evaluate
   | some im =>
     -- what the peer itself did in this op
     let m := match fs with
@@ -260,13 +291,25 @@ def monitor (m : Mon) (fs : List String) (line : String) : Mon × String :=
         -- END_STREAM from the server closes the stream if the client had half-closed; otherwise the
         -- client's RST_STREAM (which must precede any new HEADERS) does
         if m.halfP.any (some · == id.toNat?) then { m with openP := m.openP.filter (some · != id.toNat?) } else m
+      | "burst" :: subs => subs.foldl (fun m sub =>
+          match sub.splitOn ":" with
+          -- a stream admitted before the client handles a lowering SETTINGS of the same burst is legitimate
+          | ["settings", n] => (match n.toNat? with | some n => { m with maxAdv := max m.maxAdv n } | none => m)
+          | ["srvrst", id, _] => { m with openP := m.openP.filter (some · != id.toNat?) }
+          | ["srvend", id] =>
+            if m.halfP.any (some · == id.toNat?) then { m with openP := m.openP.filter (some · != id.toNat?) } else m
+          | _ => m) m   -- (ids above the last HEADERS seen are not in openP: nothing to remove; the harness skips them)
       | "goaway" :: _ => { m with dead := true }
       | ["close"] => { m with dead := true }
       | _ => m
     let nH := (im.ev.filter (·.startsWith "H")).length
     let (m, v) := monEvents m im.ev
-    let hdrLostNow := im.err.any fun e => e.endsWith ":hdrsize" && m.prevBlk.any (fun c => e == s!"{c}:hdrsize")
-    let m := { m with hdrLost := (m.hdrLost || hdrLostNow) && !im.blk.isEmpty, prevBlk := im.blk }
+    let m := match fs with
+      | "burst" :: subs =>
+        (match (subs.filterMap fun (sub : String) => match sub.splitOn ":" with | ["settings", n] => n.toNat? | _ => none).getLast? with
+         | some n => { m with maxAdv := n }
+         | none => m)
+      | _ => m
     match v with
     | some v => (m, v)
     | none =>
@@ -277,9 +320,7 @@ def monitor (m : Mon) (fs : List String) (line : String) : Mon × String :=
       else if im.q != (im.m : Int) - (m.openP.length : Int) then
         (m, s!"VIOL streamQuota ledger: quota {im.q} but max {im.m} and {m.openP.length} streams open")
       else if !im.blk.isEmpty && m.openP.length < m.maxAdv then
-        if m.hdrLost then
-          (m, s!"VIOL lost wake-up after hdrsize: callers {showList im.blk} parked with {m.openP.length} of {m.maxAdv} streams open (a woken waiter failed the header-list-size check and did not pass the token on)")
-        else (m, s!"VIOL callers {showList im.blk} parked although only {m.openP.length} of {m.maxAdv} streams are open")
+        (m, s!"VIOL starved: callers {showList im.blk} parked although only {m.openP.length} of {m.maxAdv} streams are open")
       else (m, "ok")
 
 /-! ### step -/
@@ -311,6 +352,13 @@ def step (d : DS) (fs : List String) (impl : String) : DS × String × String :=
         let pick := match lines.find? (fun p => p.2 == impl) with
           | some p => some p
           | none => lines.head?
+        -- A starvation verdict on a line that IS an outcome of the model is the modelled defect: by
+        -- `no_waiter_while_quota_free_partial` the model starves only after a woken waiter failed the
+        -- header-list-size check (F19). Starvation the model cannot reproduce is reported as it is.
+        let verdict :=
+          if verdict.startsWith "VIOL starved" && lines.any (fun p => p.2 == impl) then
+            verdict ++ " [the model reproduces it: a woken waiter failed checkForHeaderListSize and dropped the wake-up token]"
+          else verdict
         match pick with
         | none => (d, "no-outcome", verdict)
         | some (n, line) =>
